@@ -5,3 +5,9 @@ cd "$(dirname "$0")/checker"
 export GOFLAGS=-mod=mod GOPROXY=off GOSUMDB=off GOTOOLCHAIN=local GOWORK=off
 mkdir -p ../bin
 go build -o ../bin/verifcheck .
+# Prime the Go build cache for the way the checker loads /repo (export data built with -trimpath, so that the cache is
+# shared between /repo and the scratch copies of the thorough tier). Best effort: a failure here does not fail the set-up,
+# the first check then pays for it. Evidence of this run goes to a scratch directory that is removed again.
+warm=$(mktemp -d /var/tmp/verif-warm-XXXXXX)
+../bin/verifcheck -p C35 -tier quick -verif "$warm" >/dev/null 2>&1 || true
+rm -rf "$warm"
